@@ -10,6 +10,8 @@ package main
 import (
 	"fmt"
 	"math/rand/v2"
+	"os"
+	"runtime"
 	"sync"
 	"time"
 
@@ -103,6 +105,92 @@ func concCase(seed uint64, idx int, flush bool) *CaseSpec {
 		for c := 1; c <= n; c++ {
 			h.sess[c].take()
 		}
+		// handover contention: the primary (session 1) has a long batch in flight that adds and
+		// deletes one group over and over while session 2 takes over and sends the same kind of
+		// batch: the two batches are programmed concurrently (the election is read once per batch)
+		base := uint64(stormRounds + 1)
+		{
+			batch := func(c int, id *spb.Uint128) []*spb.AFTOperation {
+				ops := []*spb.AFTOperation{}
+				// the old primary's batch is long, so that the new primary's certainly overlaps it
+				for j := 0; j < 640/c/c; j++ {
+					g := uint64(7)
+					op := &spb.AFTOperation{Id: uint64(c*1000000 + j), NetworkInstance: "DEFAULT", Op: spb.AFTOperation_ADD, ElectionId: id,
+						Entry: &spb.AFTOperation_NextHopGroup{NextHopGroup: &aftpb.Afts_NextHopGroupKey{Id: g, NextHopGroup: &aftpb.Afts_NextHopGroup{NextHop: []*aftpb.Afts_NextHopGroup_NextHopKey{{Index: 9, NextHop: &aftpb.Afts_NextHopGroup_NextHop{Weight: uv(1)}}}}}}}
+					if (j+c)%2 == 0 {
+						op.Op = spb.AFTOperation_DELETE
+					}
+					ops = append(ops, op)
+				}
+				return ops
+			}
+			idA, idB := &spb.Uint128{High: base, Low: 1}, &spb.Uint128{High: base, Low: 2}
+			o := h.Send(1, &spb.ModifyRequest{ElectionId: idA})
+			if !o.Hang && !o.Ended {
+				o = h.Send(1, &spb.ModifyRequest{Operation: []*spb.AFTOperation{{Id: 999999, NetworkInstance: "DEFAULT", Op: spb.AFTOperation_ADD, ElectionId: idA,
+					Entry: &spb.AFTOperation_NextHop{NextHop: &aftpb.Afts_NextHopKey{Index: 9, NextHop: &aftpb.Afts_NextHop{IpAddress: sv("10.0.0.9")}}}}}})
+			}
+			var hw sync.WaitGroup
+			var oA, oB MsgOutcome
+			hw.Add(2)
+			go func() { defer hw.Done(); oA = h.Send(1, &spb.ModifyRequest{Operation: batch(1, idA)}) }()
+			go func() {
+				defer hw.Done()
+				// wait until the old primary's batch is being programmed
+				for dl := time.Now().Add(5 * time.Second); time.Now().Before(dl); {
+					f := h.sess[1]
+					f.mu.Lock()
+					started := len(f.out) > 0
+					f.mu.Unlock()
+					if started {
+						break
+					}
+					runtime.Gosched()
+				}
+				oB = h.Send(2, &spb.ModifyRequest{ElectionId: idB})
+				if !oB.Hang && !oB.Ended {
+					oB = h.Send(2, &spb.ModifyRequest{Operation: batch(2, idB)})
+				}
+			}()
+			hw.Wait()
+			if os.Getenv("VERIF_DEBUG") != "" {
+				cnt := func(o MsgOutcome) (ok, fail int) {
+					for _, r := range o.Resps {
+						for _, x := range r.GetResult() {
+							if x.Status == spb.AFTResult_FAILED {
+								if fail == 0 {
+									fmt.Fprintf(os.Stderr, "first failure: %v\n", x)
+								}
+								fail++
+							} else if x.Status == spb.AFTResult_FIB_PROGRAMMED || x.Status == spb.AFTResult_RIB_PROGRAMMED {
+								ok++
+							}
+						}
+					}
+					return
+				}
+				a1, a2 := cnt(oA)
+				b1, b2 := cnt(oB)
+				fmt.Fprintf(os.Stderr, "handover: A ok=%d fail=%d; B ok=%d fail=%d resps=%d/%d\n", a1, a2, b1, b2, len(oA.Resps), len(oB.Resps))
+			}
+			if o.Hang || o.Ended || oA.Hang || oA.Ended || oB.Hang || oB.Ended {
+				t.Add("conc.result 0 %s", S(fmt.Sprintf("handover phase: a request was not answered or the RPC ended (%v %v %v)", o.Err, oA.Err, oB.Err)))
+				t.Add("end")
+				return t, nil
+			}
+			// remove the group if it is still there: afterwards nothing refers to next-hop 9
+			h.Send(2, &spb.ModifyRequest{Operation: []*spb.AFTOperation{{Id: 2999999, NetworkInstance: "DEFAULT", Op: spb.AFTOperation_DELETE, ElectionId: idB,
+				Entry: &spb.AFTOperation_NextHopGroup{NextHopGroup: &aftpb.Afts_NextHopGroupKey{Id: 7, NextHopGroup: &aftpb.Afts_NextHopGroup{NextHop: []*aftpb.Afts_NextHopGroup_NextHopKey{{Index: 9, NextHop: &aftpb.Afts_NextHopGroup_NextHop{Weight: uv(1)}}}}}}}}})
+			rc := h.S.VerifRIB().VerifRefCounts()["DEFAULT"]
+			if rc != nil && rc.NextHop[9] != 0 {
+				t.Add("conc.result 0 %s", S(fmt.Sprintf("handover phase: two overlapping batches added and deleted group 7; it is gone, yet next-hop 9's reference counter is %d", rc.NextHop[9])))
+				t.Add("end")
+				return t, nil
+			}
+			for c := 1; c <= n; c++ {
+				h.sess[c].take()
+			}
+		}
 		// each session announces `rounds` strictly increasing ids of its own; all distinct
 		type ann struct {
 			c  int
@@ -124,9 +212,9 @@ func concCase(seed uint64, idx int, flush bool) *CaseSpec {
 				defer wg.Done()
 				rr := rand.New(rand.NewPCG(seeds[c], 7))
 				for k := 1; k <= rounds; k++ {
-					id := &spb.Uint128{High: uint64(stormRounds + k), Low: uint64(c)}
+					id := &spb.Uint128{High: base + uint64(k), Low: uint64(c)}
 					if rr.IntN(3) == 0 {
-						id = &spb.Uint128{High: uint64(stormRounds + k), Low: uint64(c) + (1 << 63)}
+						id = &spb.Uint128{High: base + uint64(k), Low: uint64(c) + (1 << 63)}
 					}
 					mu.Lock()
 					announced[encElec(id)] = c
@@ -305,6 +393,7 @@ func init() {
 		},
 		Required: []string{"conc.ok"},
 		Serial:   true,
+		Atomic:   true,
 	}
 	props["C11"] = &PropSpec{Mode: "conc", Diffs: []string{"conc", "refs", "hang", "crash"}, Monitors: []string{"c11", "c03"}}
 }
